@@ -5,6 +5,7 @@ import (
 	"go/token"
 	"go/types"
 	"sort"
+	"strings"
 
 	"golang.org/x/tools/go/ssa"
 )
@@ -62,6 +63,7 @@ func (f *FnEnc) instr(fr *Frame, st *State, R string, in ssa.Instruction) {
 		}
 		f.nilCheck(R, addr, in.Pos())
 		f.guardedAccess(fr, st, R, in.Addr, true)
+		f.guardedElems(fr, st, R, addr.L[0], in.Pos(), "write")
 		f.store(st, ptrAddr(addr), Val{T: derefType(addr.T), L: v.L})
 	case *ssa.UnOp:
 		f.unop(fr, st, R, in)
@@ -324,6 +326,7 @@ func (f *FnEnc) unop(fr *Frame, st *State, R string, in *ssa.UnOp) {
 		}
 		f.nilCheck(R, x, in.Pos())
 		f.guardedAccess(fr, st, R, in.X, false)
+		f.guardedElems(fr, st, R, x.L[0], in.Pos(), "read")
 		v := f.load(st, in.Type(), ptrAddr(x))
 		f.c.assume(R, f.wf(st, v))
 		f.setVal(fr, in, v)
@@ -798,6 +801,16 @@ func (f *FnEnc) havocObject(st *State, ref string, classes []string) {
 		f.noteWrite(writeRec{Class: so, Kind: "object", Ref: ref})
 		h := f.heap(st, so)
 		fr := f.c.fresh("hv", midSort(so))
+		if so == SBool {
+			// object(x) stands for the object's program data: the lock
+			// ghosts of mutexes inside it stay as they were unless the
+			// contract also names held(...) (lock-balanced callees)
+			if pred := f.heldCellPred(); pred != "" {
+				old := f.c.define("mid", midSort(so), sel(h, ref))
+				p1 := strings.ReplaceAll(pred, "r!q", ref)
+				f.c.assume(f.curGuardOrTrue(), "(forall ((i!q (_ BitVec 64)) (s!q (_ BitVec 64))) (! (=> "+p1+" (= (select (select "+fr+" i!q) s!q) (select (select "+old+" i!q) s!q))) :pattern ((select (select "+fr+" i!q) s!q))))")
+			}
+		}
 		setHeap(st, so, f.c.define("H"+className(so), heapSort(so), sto(h, ref, fr)))
 	}
 }
